@@ -6,6 +6,7 @@ the parameters (mode, from, from+n-1, p): `ok valid` | `ok invalid <index of the
 The schedule fields (lazy … choices) describe how the harness produced the trace and are not read. -/
 import BtcVerif.Oracle.Util
 import BtcVerif.Model.Stream
+import BtcVerif.Model.Reorder
 
 namespace BtcVerif.Oracle
 open BtcVerif
@@ -92,12 +93,52 @@ def validate (mode from_ n p events : String) : Option String := do
   | none, some i => return s!"ok invalid {i}"
   | none, none => return "ok valid"
 
+/-! `reorder.run <from> <n> <events>`: the ordering buffer of `Model/Reorder.lean` on the block responses of an
+observed run, in the order the transport released them (`r<k>b:o` the block of height from+k, `:n` a block
+that links to nothing, `:w` a sibling of the block of height from+k-1), followed by the closed queue.
+Answer: `ok <done|err|running> <heights handed out after the first, relative to from>`. -/
+
+def reorderBlock (tok : String) : Option Model.Reorder.Blk :=
+  match tok.toList with
+  | 'r' :: rest =>
+    match (String.ofList rest).splitOn ":" with
+    | [a, o] =>
+      match a.toList.reverse with
+      | 'b' :: hr =>
+        match (String.ofList hr.reverse).toNat? with
+        | some k =>
+          if k = 0 then none
+          else match o with
+            | "o" => some ⟨k + 1, k⟩
+            | "n" => some ⟨1000 + k, 2000 + k⟩
+            | "w" => some ⟨3000 + k, k - 1⟩
+            | _ => none
+        | none => none
+      | _ => none
+    | _ => none
+  | _ => none
+
+def reorderIndex (b : Model.Reorder.Blk) : String :=
+  if b.id ≥ 3000 then toString (b.id - 3000 - 1) else if b.id ≥ 1000 then s!"x{b.id}" else toString (b.id - 1)
+
+def reorderRun (from_ n events : String) : Option String := do
+  let lo ← from_.toNat?
+  let n ← n.toNat?
+  if n = 0 then none
+  let toks := if events = "-" then [] else events.splitOn ","
+  let evs := (toks.filterMap reorderBlock).map Model.Reorder.Ev.blk ++ [Model.Reorder.Ev.closed]
+  let s := Model.Reorder.run lo (lo + n - 1) 1 evs
+  let res := match s.res with | .done => "done" | .err => "err" | .running => "running"
+  return s!"ok {res} {",".intercalate (s.out.map reorderIndex)}"
+
 end StreamOp
 
 def opStream (op : String) (args : List String) : Option String :=
   match op, args with
   | "stream.validate", [mode, from_, n, p, _lazy, _seed, _faults, _cancel, _choices, events] =>
     some ((StreamOp.validate mode from_ n p events).getD "err")
+  | "reorder.run", [_mode, from_, n, _p, _lazy, _seed, _faults, _cancel, _choices, events] =>
+    some ((StreamOp.reorderRun from_ n events).getD "err")
   | _, _ => none
 
 end BtcVerif.Oracle
